@@ -20,8 +20,8 @@ def _fes(cfg):
     return 'des::runtime::event::event_set::%s::FutureEventSet' % ('cqueue_impl' if cfg == 'A' else 'default_impl')
 
 
-def r1_step_wrappers(ctx, cfg='A'):
-    ctx.set_rule('C10.R1', cfg)
+def r1_step_wrappers(ctx, cfg='A', rule='C10.R1'):
+    ctx.set_rule(rule, cfg)
     P = ctx.progs[cfg]
     from .dispatch import counter_field, limit_fields
     CNT = counter_field(ctx, cfg)
